@@ -2,7 +2,7 @@
 what the driver hands over, read() returns an arbitrary byte string or raises
 IOError.  This is the assumed contract of nfc.clf.transport.* for C13/C14."""
 import errno
-from pyvc_rt import nondet_int, nondet_bool, nondet_bytearray
+from pyvc_rt import nondet_int, nondet_bool, nondet_bytearray, require
 
 
 class Transport(object):
@@ -26,6 +26,41 @@ class Transport(object):
         b = nondet_bytearray(0, None)
         self.last = bytes(b)      # ghost: what the device sent last
         return b
+
+    def close(self):
+        pass
+
+
+from specs.pn53x_frame import pn53x_body
+
+
+class TtyTransport(object):
+    """A serial host link as pn532.init() uses it (open/write/read): the chip answers anything or nothing.  Interface
+    obligation at every write: what is written is an ACK frame or - after any number of extra preamble octets - a
+    well-formed PN53x information frame from the host (TFI D4h)."""
+    TYPE = "TTY"
+    port = "/dev/ttyUSB0"
+
+    def __init__(self):
+        self.written = 0
+        self.baudrate = 115200
+
+    def open(self, port, baudrate):
+        self.baudrate = baudrate
+
+    def write(self, frame):
+        frame = bytes(frame)
+        ok = frame == bytes.fromhex('0000FF00FF00')
+        if not ok and len(frame) >= 10 and frame[0:10] == bytes(10):
+            body = pn53x_body(frame[10:])
+            ok = body is not None and body[0] == 0xD4
+        require(ok, 'every frame written to the chip is well formed')
+        self.written += 1
+
+    def read(self, timeout=0):
+        if nondet_bool():
+            raise IOError(errno.ETIMEDOUT, "timeout")
+        return nondet_bytearray(0, None)
 
     def close(self):
         pass
